@@ -271,8 +271,12 @@ def run_one(ch, cfg):
 
     def driver():
         k.block(lambda: w.serving() or w.manager_task.done, 120)
+        prev = None
         for i in range(nlines):
             line, kind = gen_line(ch, cfg, v1)
+            if prev is not None and ch.draw(4, "history.retry") == 1:
+                line, kind = prev          # a client that sends the very same line again
+            prev = (line, kind)
             kinds.append(kind)
             behaviour = ch.weighted([(6, "plain"), (2, "fragments"), (1, "half-close"),
                                      (1, "reset"), (1, "pair"), (1, "trailing-bytes")],
